@@ -206,6 +206,8 @@ func c09Program(r *RNG) GoProg {
 	sb.WriteString("func (t *T) MV(xs ...int) int {\n\treturn t.A + len(xs)*10\n}\n\nfunc (t *T) TailM(xs []int) int {\n\treturn t.MV(xs...)\n}\n\n")
 	sb.WriteString("func (t *T) MVf(k int, xs ...float64) float64 {\n\tif len(xs) == 0 {\n\t\treturn 0.25\n\t}\n\treturn xs[0]/2 + float64(k)\n}\n\nfunc (t *T) MVb(xs ...byte) byte {\n\treturn xs[len(xs)-1] + 200\n}\n\n")
 	sb.WriteString("func blank(_ int, _ string, c int) int {\n\treturn c\n}\n\nfunc blank2(_, _ int) int {\n\treturn 7\n}\n\nfunc (_ *T) MB(_ int, _ int, c ...int) int {\n\treturn len(c)\n}\n\n")
+	sb.WriteString("var bumps int\n\nfunc bump() int {\n\tbumps++\n\treturn 100 + bumps\n}\n\nfunc (t *T) Bump() (int, int) {\n\tt.A++\n\treturn 7, 8\n}\n\nfunc nores() {\n\tbumps += 10\n}\n\n")
+	sb.WriteString("func loopPost(t *T) (string, int) {\n\tn := 0\n\tfor i := 0; i < 3; bump() {\n\t\ti++\n\t\tn++\n\t}\n\tfor i := 0; i < 2; t.Bump() {\n\t\ti++\n\t}\n\tfor i := 0; i < 2; nores() {\n\t\ti++\n\t}\n\tif bump(); n > 0 {\n\t\tn++\n\t}\n\treturn \"done\", n\n}\n\n")
 	sb.WriteString("func rec(n int) int {\n\tif n == 0 {\n\t\treturn 0\n\t}\n\treturn 1 + rec(n-1)\n}\n\n")
 	sb.WriteString("func apply(f func(int) int, v int) int {\n\treturn f(v) + 1\n}\n\nfunc twice(v int) int {\n\treturn v * 2\n}\n\nfunc pair(a int, b int) (int, int) {\n\treturn b, a\n}\n\nfunc pass(a int, b int) (int, int) {\n\treturn pair(a, b)\n}\n\n")
 	nf := 2 + r.Intn(3)
@@ -380,6 +382,7 @@ func c09Program(r *RNG) GoProg {
 	sb.WriteString("s, n := t.M2(4, \"q\")\nprintln(\"m2\", s, n)\n")
 	fmt.Fprintf(&sb, "mvf := t.MVf\nmvb := t.MVb\nprintln(\"mvar\", t.MVf(1, %d), t.MVf(2), mvf(3, 5, 6), t.MVb(%d), mvb(1, %d), t.MVb([]byte{7, 100}...))\n", 1+2*r.Intn(20), 60+r.Intn(150), 60+r.Intn(150))
 	fmt.Fprintf(&sb, "println(\"blank\", blank(1, \"x\", %d), blank2(3, 4), t.MB(1, 2), t.MB(1, 2, 3, 4))\n", r.Intn(100))
+	sb.WriteString("lp1, lp2 := loopPost(t)\nprintln(\"post\", lp1, lp2, bumps, t.A)\n")
 	sb.WriteString("fv := twice\nprintln(\"fv\", fv(21), apply(twice, 5), apply(fv, 6))\n")
 	sb.WriteString("t.F = twice\nprintln(\"field\", t.F(8))\n")
 	sb.WriteString("a, b := pass(1, 2)\nprintln(\"pass\", a, b)\n")
@@ -398,7 +401,7 @@ func prefixComma(a []string) string {
 }
 
 func runC09(c *Ctx) error {
-	c.Rep.Rule = "call: script functions with 0..4 int parameters (optionally a variadic tail), 0..3 results and 0..2 extra locals, called by a CALL instruction on the real VM with a caller stack prefix of 0..3 values, the right / a wrong argument count and every requested result count, final stack compared with the model; programs: generated signatures (0..5 parameters and 0..3 results over int, byte, float64, string, bool), all call forms (statement, single value, multi-assign with blanks by := / var / typed var / plain assignment, in functions and at package level, return f(), method value bound before reassignment, multi-result method, function-typed variable / parameter / field, variadic with 0..n extras and spread (functions, methods and method values with int, float64 and byte tails), blank parameters, nested in expressions) and recursion to depth 3000, against the Go toolchain; distinct = distinct line / program; non-trivial = non-empty caller prefix and accepted call / program"
+	c.Rep.Rule = "call: script functions with 0..4 int parameters (optionally a variadic tail), 0..3 results and 0..2 extra locals, called by a CALL instruction on the real VM with a caller stack prefix of 0..3 values, the right / a wrong argument count and every requested result count, final stack compared with the model; programs: generated signatures (0..5 parameters and 0..3 results over int, byte, float64, string, bool), all call forms (statement, single value, multi-assign with blanks by := / var / typed var / plain assignment, in functions and at package level, return f(), method value bound before reassignment, multi-result method, function-typed variable / parameter / field, variadic with 0..n extras and spread (functions, methods and method values with int, float64 and byte tails), blank parameters, calls as for-post and if-init statements, nested in expressions) and recursion to depth 3000, against the Go toolchain; distinct = distinct line / program; non-trivial = non-empty caller prefix and accepted call / program"
 	if err := c.c09Corr(); err != nil {
 		return err
 	}
